@@ -98,10 +98,58 @@ func (o *Obligation) script(getValues []*Term, qfOnly bool) string {
 	if o.Expect != "sat" {
 		inst := u.C.instances(hyps, goal)
 		if qfOnly {
+			// the path condition is always kept (its conjuncts with a quantifier are usually guards shared with the
+			// goal, or an induction hypothesis): only background assumptions with quantifiers are replaced by instances
+			// quantified formulas that occur as GUARDS inside the instances, the goal or the path condition: a hypothesis
+			// that asserts exactly such a formula is kept (it is what discharges the guard, as a propositional atom)
+			guards := map[int]bool{}
+			seenT := map[int]bool{}
+			var findQ func(t *Term)
+			findQ = func(t *Term) {
+				if seenT[t.id] || !t.quant {
+					return
+				}
+				seenT[t.id] = true
+				if t.Op == OpForall || t.Op == OpExists {
+					guards[t.id] = true
+					return
+				}
+				for _, a := range t.Args {
+					findQ(a)
+				}
+			}
+			for _, t := range inst {
+				findQ(t)
+			}
+			findQ(goal)
+			findQ(o.PC)
 			var qf []*Term
+			keep := func(g, a *Term) {
+				if !a.quant || guards[a.id] {
+					if g != nil {
+						a = u.C.Implies(g, a)
+					}
+					qf = append(qf, a)
+				}
+			}
 			for _, h := range hyps {
-				if !h.quant {
+				if !h.quant || h == o.PC || guards[h.id] {
 					qf = append(qf, h)
+					continue
+				}
+				// the quantifier-free conjuncts (and the guard formulas) of a quantified hypothesis survive the weakening
+				if h.Op == OpAnd {
+					for _, a := range h.Args {
+						keep(nil, a)
+					}
+				} else if h.Op == OpImplies && !h.Args[0].quant {
+					if h.Args[1].Op == OpAnd {
+						for _, a := range h.Args[1].Args {
+							keep(h.Args[0], a)
+						}
+					} else if guards[h.Args[1].id] {
+						qf = append(qf, h)
+					}
 				}
 			}
 			hyps = qf
@@ -373,24 +421,131 @@ func (c *Ctx) instances(hyps []*Term, goal *Term) []*Term {
 		}
 	}
 	walk(goal)
+	// E-matching by hand for uninterpreted (spec) functions: a quantified hypothesis whose body applies f to its bound
+	// variable is also instantiated at every ground t such that f(.., t, ..) occurs in the goal or the path condition
+	groundArgs := map[string]map[int][]*Term{} // function name -> argument position -> ground terms
+	seenG := map[int]bool{}
+	var walkApps func(t *Term)
+	walkApps = func(t *Term) {
+		if seenG[t.id] {
+			return
+		}
+		seenG[t.id] = true
+		if t.Op == OpForall || t.Op == OpExists {
+			return
+		}
+		if t.Op == OpApp && strings.HasPrefix(t.Name, "spec_") {
+			for i, a := range t.Args {
+				if a.S == BV(64) && len(a.free) == 0 {
+					if groundArgs[t.Name] == nil {
+						groundArgs[t.Name] = map[int][]*Term{}
+					}
+					groundArgs[t.Name][i] = append(groundArgs[t.Name][i], a)
+				}
+			}
+		}
+		for _, a := range t.Args {
+			walkApps(a)
+		}
+	}
+	walkApps(goal)
+	if len(hyps) > 0 {
+		walkApps(hyps[len(hyps)-1]) // the path condition
+	}
+	extra := func(v, body *Term) []*Term {
+		var out []*Term
+		seenE := map[int]bool{}
+		seenB := map[int]bool{}
+		var wb func(t *Term)
+		wb = func(t *Term) {
+			if seenB[t.id] || len(out) > 12 {
+				return
+			}
+			seenB[t.id] = true
+			if t.Op == OpApp && strings.HasPrefix(t.Name, "spec_") {
+				for i, a := range t.Args {
+					if a == v {
+						for _, g := range groundArgs[t.Name][i] {
+							if !seenE[g.id] && !seenC[g.id] {
+								seenE[g.id] = true
+								out = append(out, g)
+							}
+						}
+					}
+				}
+			}
+			for _, a := range t.Args {
+				wb(a)
+			}
+		}
+		wb(body)
+		return out
+	}
 	var out []*Term
 	n := 0
-	for _, qq := range qs {
-		for _, cd := range cands {
-			if qq.v.S != cd.S {
+	// the same quantified fact is often assumed several times (per loop, per case): one instance set is enough; facts
+	// about spec functions (lemmas, definitions) come first so that the cap below never cuts them off
+	{
+		seenQ := map[[3]int]bool{}
+		var first, rest []q
+		for _, qq := range qs {
+			gid := 0
+			if qq.guard != nil {
+				gid = qq.guard.id
+			}
+			key := [3]int{qq.v.id, qq.body.id, gid}
+			if seenQ[key] {
 				continue
 			}
-			inst := c.Subst(qq.body, map[int]*Term{qq.v.id: cd})
-			if qq.guard != nil {
-				inst = c.Implies(qq.guard, inst)
+			seenQ[key] = true
+			if len(extra(qq.v, qq.body)) > 0 {
+				first = append(first, qq)
+			} else {
+				rest = append(rest, qq)
 			}
-			if !inst.IsTrue() && !inst.quant {
-				out = append(out, inst)
-				n++
+		}
+		qs = append(first, rest...)
+	}
+	if os.Getenv("GOVC_DEBUG_INST") != "" {
+		fmt.Fprintf(os.Stderr, "instances: %d quantifiers, %d candidates, ground spec args: %d functions\n", len(qs), len(cands), len(groundArgs))
+		for _, qq := range qs {
+			fmt.Fprintf(os.Stderr, "  q var %s extra=%d\n", qq.v.Name, len(extra(qq.v, qq.body)))
+		}
+	}
+	seenInst := map[int]bool{}
+	// two rounds: the instances of the first round may expose quantifiers nested one level down (forall k forall j)
+	for round := 0; round < 2; round++ {
+		var next []*Term
+		for _, qq := range qs {
+			for _, cd := range append(append([]*Term{}, cands...), extra(qq.v, qq.body)...) {
+				if qq.v.S != cd.S {
+					continue
+				}
+				inst := c.Subst(qq.body, map[int]*Term{qq.v.id: cd})
+				if qq.guard != nil {
+					inst = c.Implies(qq.guard, inst)
+				}
+				// an instance may itself contain a quantifier (a lemma's guard, a nested quantifier): alpha-equivalent
+				// guards are one term, so the solver usually treats it as a propositional atom shared with the goal
+				if !inst.IsTrue() && !seenInst[inst.id] {
+					seenInst[inst.id] = true
+					out = append(out, inst)
+					if inst.quant {
+						next = append(next, inst)
+					}
+					n++
+				}
+				if n > 400 {
+					return out
+				}
 			}
-			if n > 60 {
-				return out
-			}
+		}
+		qs = nil
+		for _, h := range next {
+			collect(nil, h)
+		}
+		if len(qs) == 0 {
+			break
 		}
 	}
 	return out
